@@ -205,3 +205,14 @@ Example C10_recvmmsg_small_buffer_spins :
   [None; None; Some 0; None; None; Some 1; None; None; Some 2; None; None;
    Some 3; None; None]%nat.
 Proof. vm_compute. reflexivity. Qed.
+
+(* destinations: an unconnected send to destination 2, then uv_udp_connect to destination 1
+   and a send with a NULL address: msg_name is the given address for the first and NULL for the
+   second, which therefore goes to the connected peer *)
+Example C10_example_destinations :
+  forall fx,
+  let tr := snd (run fx (fun _ => []) (fun _ _ => []) (init false false [SRet 9; SRet 9] [] [])
+                     [OSend 9 2%nat; ORun false true; OConnect 1%nat; OSend 9 0%nat; ORun false true]) in
+  In (EName [(0, 2)]%nat) tr /\ In (EName [(1, 0)]%nat) tr /\
+  delivered 0 [] tr = [(0, 2); (1, 1)]%nat.
+Proof. intros [|]; vm_compute; intuition. Qed.
